@@ -13,10 +13,16 @@
     reset <announced> <nticks> <total> <counter>
     snap <cur> {<weight> <total> <counter>}*     state samples in time order
     life <id> <ops…> | <observed finish flags…>
+    pooltrace <tokens…>          controlled-mode build-phase trace (cooperative scheduler: the real total order),
+                                 tokens as in Driver/C11.lean (l p u e c x) plus  t<w>:<payload>  = the real
+                                 `progress_handler->tick(payload)` of worker w (hook SITE_POOL_TICK); replayed through
+                                 `Pool.step` with `Pool.tickOf` (LibfiveModel/PoolTicks.lean) computed at every event
     end
 -/
 import Driver.Parse
+import Driver.C11
 import LibfiveModel.Progress
+import LibfiveModel.PoolTicks
 open Libfive.Progress
 
 namespace Driver.C20
@@ -125,8 +131,105 @@ def lifeOp : String → Option Libfive.Progress.Handler → Option Libfive.Progr
     else if op == "destroy" then some h.finish.finish
     else some h
 
+/-! ### controlled-mode pool traces: the real tick payloads against `Pool.tickOf` / `Pool.tickCalls` -/
+
+structure PoolTickRun where
+  fin : Libfive.Pool.S
+  evs : Array Libfive.Pool.Ev      -- the model events the tokens stand for
+  calls : Array Nat                -- `tickOf` ≠ 0 along the replay, in event order (= `tickCalls`)
+  real : Array Nat                 -- the real payloads, in log order
+  issued : Nat
+
+def natSort (a : Array Nat) : Array Nat := a.qsort (· < ·)
+
+/-- Replay the tokens through `Pool.step`; every event's `tickOf` is what the model says the worker
+    passes to `tick` in the segment that follows that hook point, so it must be the payload of the
+    NEXT `t` token of the same worker, which must come before that worker's next pool event
+    (other workers' segments may lie in between: the scheduler switches at hook points).
+    Also checks `ticks issued ≤ announced` after every event (`pool_ticks_monotone_bounded`). -/
+def replayTicks (N L : Nat) (s0 : Libfive.Pool.S) (toks : List String) (maxId maxW : Nat) :
+    Except String PoolTickRun := do
+  let total := announced N L
+  let mut s := s0
+  let mut owed : List (Nat × Nat) := []
+  let mut evs : Array Libfive.Pool.Ev := #[]
+  let mut calls : Array Nat := #[]
+  let mut real : Array Nat := #[]
+  let mut issued := 0
+  let mut i := 0
+  for t in toks do
+    let f := Driver.C11.splitColon t
+    if t.front == 't' then
+      match f with
+      | [w, k] =>
+        let w := nat! w; let k := nat! k
+        match owed.lookup w with
+        | some k' =>
+          if k' == k then
+            owed := owed.filter (·.1 != w)
+            real := real.push k
+          else throw s!"worker {w} token {i}: model={k'} real={k}"
+        | none => throw s!"worker {w} token {i}: model=none real={k}"
+      | _ => throw s!"unparsable token {t} at {i}"
+    else
+      match f with
+      | w :: _ =>
+        if t.front != 'X' then
+          match owed.lookup (nat! w) with
+          | some k' => throw s!"worker {w} token {i} ({t}): model={k'} real=none"
+          | none => pure ()
+      | [] => pure ()
+      match Driver.C11.expand s t with
+      | none => throw s!"unparsable token {t} at {i}"
+      | some es =>
+        for e in es do
+          let tk := Libfive.Pool.tickOf N s e
+          match Libfive.Pool.step s e with
+          | some s' =>
+            s := s'
+            evs := evs.push e
+            if tk != 0 then
+              calls := calls.push tk
+              issued := issued + tk
+              match e.worker with
+              | some w => owed := (w, tk) :: owed
+              | none => pure ()
+              if issued > total then throw s!"token {i}: ticks issued model={issued} exceed announced {total} real=?"
+          | none => throw s!"step rejected token {t} (event {repr e}) at {i} model=reject real=accepted"
+    i := i + 1
+    if i % 48 == 0 then s := Driver.C11.compact s maxId maxW
+  match owed with
+  | (w, k) :: _ => throw s!"worker {w} at end of trace: model={k} real=none"
+  | [] => return { fin := s, evs := evs, calls := calls, real := real, issued := issued }
+
+def handlePoolTrace (s : St) (toks : List String) : St :=
+  let (maxId, maxW) := Driver.C11.maxIds toks
+  let s0 := Libfive.Pool.S.init (2 ^ s.N) s.workers s.L
+  match replayTicks s.N s.L s0 (Driver.C11.hoistFirstLoops toks) maxId maxW with
+  | .error e => s.say false "poolticks" e
+  | .ok r =>
+    -- event by event (per worker) the payloads agreed
+    let s := s.say true s!"poolticks {toks.length} ticks {r.real.size}"
+    -- the calls as a multiset, and (short traces) against the definition used by the theorems
+    let s := s.say (natSort r.calls == natSort r.real) "poolticks-multiset"
+      s!"model={(natSort r.calls).toList.take 8} real={(natSort r.real).toList.take 8}"
+    let s :=
+      if r.evs.size ≤ 2500 then
+        let m := Libfive.Pool.tickCalls s.N s0 r.evs.toList
+        let mi := Libfive.Pool.ticksIssued s.N s0 r.evs.toList
+        s.say (m == r.calls.toList && mi == r.issued) "poolticks-tickCalls"
+          s!"model={m.take 8} (sum {mi}) real={r.calls.toList.take 8} (sum {r.issued})"
+      else s
+    -- instance of pool_ticks_complete: done, not cancelled ⇒ exactly the announced total
+    let realSum := r.real.foldl (· + ·) 0
+    if r.fin.done && !r.fin.cancel then
+      s.say (r.issued == announced s.N s.L && realSum == announced s.N s.L) "poolticks-complete"
+        s!"model={r.issued} real={realSum} announced {announced s.N s.L}"
+    else s.say false "poolticks-complete" s!"model=done:{r.fin.done},cancel:{r.fin.cancel} real=returned"
+
 def handle (s : St) (line : String) : St :=
   match words line with
+  | "pooltrace" :: toks => handlePoolTrace s toks
   | ["case", id, "N", n, "L", l, "workers", w] =>
     { s with id := id, N := nat! n, L := nat! l, workers := nat! w, shape := none, prev := none,
              snaps := 0, snapBad := none, walkModel := none, resetModel := none }
